@@ -11,7 +11,9 @@ world; the script interleaves their handshakes, notifications, features replies,
 stream closures; after every message EVERY live connection's views are compared with its own reference
 and every statistics event is attributed to the connection it names.
 """
+import copy
 import itertools
+import struct
 
 from hypothesis import strategies as st
 
@@ -355,9 +357,38 @@ def case_ports(case, out):
       ref.features(again[1])
     # listeners that (per the case) halt PortStatus / FeaturesReceived: the port view must not depend on them
     halter = _Halter(case.get("halt"))
+    # The PortStatus event is how applications learn of a notification, and its listeners are where they consult
+    # con.ports: while the event for notification k is being delivered the views must already be 'the reported ports
+    # with notifications 1..k applied'.  announce: what is still to be announced, in order -- [reason, port number,
+    # reference view with that notification applied, text]; the listener on the nexus (always reached) takes the next
+    # matching entry, the one on the connection (not reached when the nexus halted the event) judges the same entry.
+    announce = []
+    current = [None]
+    in_event = {"nexus": 0, "con": 0}
+    probe_ctx = {}
+
+    def at_event(level, e):
+      if level == "nexus":
+        current[0] = None
+        while announce:
+          a = announce.pop(0)
+          if a[0] == e.ofp.reason and a[1] == e.ofp.desc.port_no:
+            current[0] = a
+            break
+      a = current[0]
+      if a is None or e.connection is not c.con:
+        return
+      in_event[level] += 1
+      when = "seen by a PortStatus listener on the %s while %s is announced" % (
+          "nexus" if level == "nexus" else "connection", a[3])
+      extra = {"at": "PortStatus-event"}
+      _probe(c, c.con.ports, a[2].current, a[2], "ports", when, probe_ctx["names"], probe_ctx["addrs"], extra)
+      _probe(c, c.con.original_ports, a[2].original, a[2], "original_ports", when, probe_ctx["names"], probe_ctx["addrs"], extra)
 
     def listener(level, cls):
       def h(e):
+        if cls == "ps":
+          at_event(level, e)
         if halter.decide(level, cls):
           return halter.do(e)
       return h
@@ -365,15 +396,6 @@ def case_ports(case, out):
       c.w.nexus.addListenerByName(kind, listener("nexus", cls))
       c.con.addListenerByName(kind, listener("con", cls))
     finish = "error" if case.get("finish") == "error" else "barrier"
-    c.handshake(feat, [(op[1], op[2]) for op in ops[:early]], finish, pre, again)
-    if pre:
-      out.label("ports:%d-notifications-before-the-features-reply" % len(pre))
-    if again is not None:
-      out.label("ports:second-features-reply-during-handshake")
-    out.label("ports:handshake-finished-by-" + ("barrier-unsupported-error" if finish == "error" else "barrier-reply"))
-    if early:
-      out.label("ports:notifications-during-handshake")
-      out.label("ports:%d-notifications-during-handshake/%s" % (early, finish))
     names = list(NAMES)
     addrs = list(HWS)
     for r in (list(feat) + [op[2] for op in ops if op[0] == "ps"] + [r for op in ops if op[0] == "feat" for r in op[1]] +
@@ -382,7 +404,32 @@ def case_ports(case, out):
         names.append(r["name"])
       if bytes(r["hw"]) not in addrs:
         addrs.append(bytes(r["hw"]))
-
+    # inside the listeners: the names and addresses this case uses (current, former and never-current ones among them)
+    probe_ctx["names"] = names[len(NAMES):] + NAMES[5:6]
+    probe_ctx["addrs"] = addrs[len(HWS):] + HWS[7:]
+    for r in list(feat) + [op[2] for op in ops if op[0] == "ps"]:
+      if r["name"] not in probe_ctx["names"]:
+        probe_ctx["names"].append(r["name"])
+      if bytes(r["hw"]) not in probe_ctx["addrs"]:
+        probe_ctx["addrs"].append(bytes(r["hw"]))
+    # notifications buffered during the handshake are announced when it finishes, in order, each on top of the (last)
+    # features reply and its predecessors
+    replayed = ops[:early] if again is None else ops[again[0]:early]
+    rv = pv.PortView()
+    rv.features(feat if again is None else again[1])
+    for k, op in enumerate(replayed):
+      rv.status(op[1], op[2])
+      announce.append([op[1], op[2]["no"], copy.deepcopy(rv), "buffered notification %d %s (handshake finished)" % (k, _show_op(op))])
+    c.handshake(feat, [(op[1], op[2]) for op in ops[:early]], finish, pre, again)
+    del announce[:]
+    if pre:
+      out.label("ports:%d-notifications-before-the-features-reply" % len(pre))
+    if again is not None:
+      out.label("ports:second-features-reply-during-handshake")
+    out.label("ports:handshake-finished-by-" + ("barrier-unsupported-error" if finish == "error" else "barrier-reply"))
+    if early:
+      out.label("ports:notifications-during-handshake")
+      out.label("ports:%d-notifications-during-handshake/%s" % (early, finish))
     def probe(when):
       _probe(c, c.con.ports, ref.current, ref, "ports", when, names, addrs)
       _probe(c, c.con.original_ports, ref.original, ref, "original_ports", when, names, addrs)
@@ -394,8 +441,10 @@ def case_ports(case, out):
         reason, rec = op[1], op[2]
         present = rec["no"] in ref.current
         out.label("ps:%s/%s" % (("add", "delete", "modify")[reason], "present" if present else "absent"))
-        c.feed(sb.port_status(0, reason, rec))
         ref.status(reason, rec)
+        del announce[:]
+        announce.append([reason, rec["no"], ref, "message %d %s" % (i + early, _show_op(op))])
+        c.feed(sb.port_status(0, reason, rec))
       elif op[0] == "feat":
         out.label("ports:second-features-reply")
         c.feed(sb.features_reply(c.next_xid(), DPID, op[1]))
@@ -412,6 +461,10 @@ def case_ports(case, out):
     out.nontrivial = ref.renamed or ref.readded or ref.hw_changed
     if halter.halted:
       out.label("ports:listener-halted-an-event")
+    if in_event["nexus"]:
+      out.label("ports:view-judged-inside-PortStatus-listener")
+    if in_event["con"] < in_event["nexus"]:
+      out.label("ports:event-halted-before-the-connection-level")
     dup_n = len(set(t[2] for t in ref.current.values())) < len(ref.current)
     if dup_n:
       out.label("ports:two-ports-share-a-name")
@@ -511,6 +564,42 @@ def _other_bytes(c, kind):
   return sb.error(c.next_xid(), sb.OFPET_BAD_REQUEST, sb.OFPBRC_BAD_LEN, b"")
 
 
+# Requests of the controller that a switch may turn down with an OFPT_ERROR; the error's data field quotes the request
+# ("at least 64 bytes of the failed request", OpenFlow 1.0 section 5.4.4).  name -> (request bytes for an xid, error type, code)
+def _stats_request(xid, stype, body):
+  return sb.header(sb.OFPT_STATS_REQUEST, 12 + len(body), xid) + struct.pack("!HH", stype, 0) + body
+
+
+_MATCH_ALL = struct.pack("!LH", sb.OFPFW_ALL, 0) + b"\0" * 34
+QUOTED = [
+  ("stats-request:flow", lambda x: _stats_request(x, sb.OFPST_FLOW, _MATCH_ALL + struct.pack("!BxH", 0xff, 0xffff)), sb.OFPET_BAD_REQUEST, sb.OFPBRC_BAD_STAT),
+  ("stats-request:port", lambda x: _stats_request(x, sb.OFPST_PORT, struct.pack("!H6x", 0xffff)), sb.OFPET_BAD_REQUEST, sb.OFPBRC_BAD_STAT),
+  ("stats-request:queue", lambda x: _stats_request(x, sb.OFPST_QUEUE, struct.pack("!H2xL", 0xfffc, 0xffffffff)), sb.OFPET_QUEUE_OP_FAILED, 1),
+  ("stats-request:table", lambda x: _stats_request(x, sb.OFPST_TABLE, b""), sb.OFPET_BAD_REQUEST, sb.OFPBRC_BAD_LEN),
+  ("flow-mod", lambda x: sb.header(sb.OFPT_FLOW_MOD, 72, x) + _MATCH_ALL + struct.pack("!QHHHHLHH", 0, 0, 0, 0, 0x8000, 0xffffffff, 0xffff, 0),
+   sb.OFPET_FLOW_MOD_FAILED, 0),
+  ("barrier-request", lambda x: sb.barrier_request(x), sb.OFPET_BAD_REQUEST, sb.OFPBRC_BAD_TYPE),
+  ("packet-out", lambda x: sb.header(sb.OFPT_PACKET_OUT, 16, x) + struct.pack("!LHH", 77, 0xffff, 0), sb.OFPET_BAD_REQUEST, 8),
+  ("port-mod", lambda x: sb.header(sb.OFPT_PORT_MOD, 32, x) + struct.pack("!H6sLLL4x", 9, b"\x02\0\0\0\0\x09", 0, 0, 0), sb.OFPET_PORT_MOD_FAILED, 0),
+]
+QUOTE_CUT = [64, 8, 12]          # how much of the request the switch quotes: the 64 bytes of the specification, the header only, 12 bytes
+
+
+def _error_item(c, reqs, item):
+  """["e", q, x, n]: the switch turns down ANOTHER request of the controller (never one of the requests whose reply is in
+  the stream): kind QUOTED[q]; xid fresh (x = 0) or the next after the first statistics request's (x = 1); data cut to
+  QUOTE_CUT[n] bytes -> (label, bytes)"""
+  name, build, etype, code = QUOTED[item[1] % len(QUOTED)]
+  taken = set(r["xid"] for r in reqs)
+  xid = c.next_xid()
+  if len(item) > 2 and item[2] % 2 == 1:
+    xid = (reqs[0]["xid"] + 1) & 0xffffffff
+  while xid in taken:
+    xid = c.next_xid()
+  cut = QUOTE_CUT[(item[3] if len(item) > 3 else 0) % len(QUOTE_CUT)]
+  return name, sb.error(xid, etype, code, build(xid)[:cut])
+
+
 def case_stats(case, out):
   c = _Con(out)
   try:
@@ -556,6 +645,7 @@ def case_stats(case, out):
     part_steps = [[] for _ in reqs]  # step at which each part was fed
     part_seq = []                    # (request, part index) in arrival order, statistics parts only
     raw_expected = {}                # step -> xid
+    err_steps = []                   # (step, kind of request quoted) of the error messages in the stream
     for i, item in enumerate(stream):
       c.step = i
       if item[0] == "p":
@@ -571,9 +661,19 @@ def case_stats(case, out):
       elif item[0] == "o":
         out.label("stats:other-message-in-stream")
         c.feed(_other_bytes(c, item[1]))
+      elif item[0] == "e":
+        name, data = _error_item(c, reqs, item)
+        out.label("stats:error-quoting-a-" + name + "-in-stream")
+        err_steps.append((i, name))
+        c.feed(data)
       else:
         raise HarnessError("unknown stream item %r" % (item,))
     c.step = len(stream)
+    for i, name in err_steps:
+      if any(len(ps) > 1 and ps[0] < i < ps[-1] and sent[r] == len(reqs[r]["parts"]) for r, ps in enumerate(part_steps)):
+        out.label("stats:error-for-another-request-between-the-parts-of-a-reply")
+        if name.startswith("stats-request"):
+          out.label("stats:another-stats-request-turned-down-between-the-parts-of-a-reply")
     for x, rs in by_xid.items():
       spans = sorted((part_steps[r][0], part_steps[r][-1]) for r in rs if part_steps[r])
       for a, b in zip(spans, spans[1:]):
@@ -1254,6 +1354,19 @@ def enum_stats(tier):
           yield {"k": "stats", "reqs": [a, o, b], "stream": stream + [["p", 2]] * 2}
         # the opaque reply is never finished; a judged one follows
         yield {"k": "stats", "reqs": [a, o, b], "stream": [["p", 0]] * 2 + [["p", 1]] * (k - 1) + [["p", 2]] * 2}
+  # (e) the switch turns down another request of the controller (error message quoting it) before / between / after the
+  #     parts: every strict composition of 4 entries x every gap x every kind of quoted request x fresh / neighbouring xid,
+  #     and the shorter quotations with a fresh xid
+  for t in ("flow", "table", "port", "queue"):
+    for k in range(1, 5):
+      for sizes in _weak_compositions(4 - k, k):
+        req = {"t": t, "xid": 0x21, "parts": _parts_from_sizes([x + 1 for x in sizes], 1)}
+        for gap in range(k + 1):
+          for q in range(len(QUOTED)):
+            for x, n in ((0, 0), (1, 0), (0, 1), (0, 2)):
+              stream = [["p", 0]] * k
+              stream.insert(gap, ["e", q, x, n])
+              yield {"k": "stats", "reqs": [req], "stream": stream}
   # (c) two multipart replies, every merge of 3 + 2 parts, and a reply whose final part never arrives
   for t, t2 in (("flow", "flow"), ("flow", "port"), ("table", "queue")):
     a = {"t": t, "xid": 0x31, "parts": [[1, 2], [3], [4, 5]]}
@@ -1380,6 +1493,9 @@ def _s_stats(draw, tier):
   n_other = draw(st.integers(0, 4))
   for _ in range(n_other):
     stream.insert(draw(st.integers(0, len(stream))), ["o", draw(st.integers(0, 4))])
+  # the switch turns down other requests of the controller: error messages that quote them
+  for _ in range(draw(st.sampled_from([0, 0, 1, 1, 2]))):
+    stream.insert(draw(st.integers(0, len(stream))), ["e", draw(st.integers(0, len(QUOTED) - 1)), draw(st.integers(0, 1)), draw(st.sampled_from([0, 0, 1, 2]))])
   return {"k": "stats", "reqs": reqs, "stream": stream, "halt": draw(_s_halt(["raw", "agg"]))}
 
 
